@@ -123,3 +123,5 @@ SPEC = dict(contracts=['nd.h', 'dv.h', 'c19_valid.h', 'c19_units.h', 'c19_dimuni
             assumptions=['KERNEL ONLY: the rule tables of src/valid/validate.cpp (initializer lists of lambdas: which predicate is attached to which entity, as error or warning) '
                          'and the walk in File::validate are NOT covered; a rule removed from a table is invisible to this check',
                          'quantifiers over descriptors are bounded by the rank limit 32; descriptors beyond the data rank are ignored by the predicates (and flagged by dimEquals)'])
+
+SPEC['assumptions'] = list(SPEC.get('assumptions', [])) + ['session 3: getDimensionUnit / getDimensionsUnits - descriptors are records of what is read (kind, unit, column); File::validate is a BOUNDED stand-in (<= 2 entries per container; every parent of a kind has the same children; valid::validate(...) is a ghost counter per entity kind); NDSize::nelms is an arbitrary value (not used by the pinned predicates)']
